@@ -138,7 +138,8 @@ class P(Prop):
                 "__analyticalFeaturesDico as (name, column) pairs with getObsAnalyticalFeature / getAnalyticalFeature / "
                 "createAnalyticalFeature (list or scalar) / removeAnalyticalFeature on non-reserved names; an interpreter applying these "
                 "operations in sequence to a pool of tracks. Timestamps as integers (C03 proves the field-wise order is the epoch order)")
-    trusted = ["numpy argsort on an object array: only 'returns a sorting permutation' is assumed (it is not stable for ties); "
+    trusted = ["sessions: a new observation's feature list is laid out by the harness following getListAnalyticalFeatures() (column = rank), as a caller has to",
+               "numpy argsort on an object array: only 'returns a sorting permutation' is assumed (it is not stable for ties); "
                "CPython list.insert / del / slices / negative indices modelled as documented",
                "(int)(math.log(N)/math.log(2)) modelled as floor(log2 N); the theorems hold for any first step 2^j with 2*2^j <= N"]
     rule = ("every track of size 0..6 (0..7 thorough) over the time values {1,3,5,7} x every instant 0..8 (before / equal / between / after) for "
@@ -555,7 +556,8 @@ class P(Prop):
                     f = [2024, 2, rng.choice([28, 29]), rng.choice([0, 23]), rng.choice([0, 59]), rng.choice([0, 59]), rng.choice([0, 999])]
                 fs.append(f)
             if mode > 0.95:
-                fs[rng.randrange(n)][0] = rng.choice([2070, 2100])       # no bucket for the year: IndexError, the track is left as it was
+                # no bucket for the year: IndexError (the track is left as it was) / a negative bucket index wraps around
+                fs[rng.randrange(n)][0] = rng.choice([2070, 2100, 1969, 1900, 1869])
             if rng.random() < 0.3:
                 fs = sorted(fs)
             elif rng.random() < 0.15:
@@ -766,6 +768,20 @@ class P(Prop):
         k = case["kind"]
         if k == "session" and "init" in impl_out and self._late_view(case, impl_out) == self._late_view(case, model_out):
             return None
+        if k == "session" and "init" in impl_out and impl_out["init"] == model_out.get("init"):
+            # freedom left by the property: the order of EQUAL timestamps after sort() (numpy's sort is not stable beyond 16
+            # elements, the model's is). When the first difference is such a sort, the implementation's whole session is validated
+            # by the oracle instead of being compared with the model's choice.
+            for j, (a, b) in enumerate(zip(impl_out["steps"], model_out["steps"])):
+                if a != b:
+                    op = case["ops"][j]
+                    if op[0] == "sort" and a["out"] == b["out"] == "done" and len(a["pool"]) == len(b["pool"]):
+                        same_but = all(x == y for i, (x, y) in enumerate(zip(a["pool"], b["pool"])) if i != op[1])
+                        ta, tb = a["pool"][op[1]], b["pool"][op[1]]
+                        if same_but and sorted(ta["pts"]) == sorted(tb["pts"]) and ta["names"] == tb["names"] and ta["cols"] == tb["cols"] \
+                                and len(set(r[1] for r in ta["pts"])) < len(ta["pts"]) and self.spec(case, impl_out) is None:
+                            return None
+                    break
         # freedom left by the property: the place of the new observation among EQUAL timestamps, the order of equal
         # timestamps after sort -> the implementation's answer is validated by the spec, not required to equal the model's
         if k == "sort" and "err" not in impl_out and len(set(case["times"])) < len(case["times"]):
@@ -1166,6 +1182,13 @@ class P(Prop):
         return None
 
     # ================================================================ sortRadix
+    RADIX_YEARS_STRICT = False     # True once 'sortradix-year-outside-1970-2069' is a listed finding: the oracle then judges those tracks too
+
+    def classify(self, case, impl_out, msg):
+        if case.get("kind") == "radix" and any(not 1970 <= f[0] <= 2069 for f in case["fields"]):
+            return "sortradix-year-outside-1970-2069"
+        return None
+
     @staticmethod
     def radix_digits(f):
         y, mo, d, h, mi, sec, ms = f
@@ -1195,8 +1218,9 @@ class P(Prop):
             return "sortRadix raised %s" % out.get("err")
         if any(not (isinstance(r[0], int) and 0 <= r[0] < len(fields) and r[1] == fields[r[0]]) for r in rows):
             return "sortRadix altered an observation: %s" % rows
-        if any(not 1970 <= f[0] <= 2069 for f in fields):
-            # sortRadix has one bucket per year 1970..2069: other years are outside what it offers (reported as a limit)
+        if any(not 1970 <= f[0] <= 2069 for f in fields) and not self.RADIX_YEARS_STRICT:
+            # sortRadix has one bucket per year 1970..2069 (a later year raises IndexError, an earlier one wraps around to a late
+            # bucket): reported as a finding; until it is listed in known_findings.json such tracks are only compared with the model
             return None if sorted(r[0] for r in rows) == list(range(len(fields))) else "sortRadix lost observations: %s" % rows
         if "err" in out:
             return "sortRadix raised %s on %s" % (out["err"], fields)
